@@ -4,6 +4,7 @@
   Merged stores: model `AeicModel/Merge.lean` (per-store offsets), second half of this file.
 -/
 import AeicProofs.Lemmas.StoreMain
+import AeicProofs.Lemmas.MergeRead
 
 namespace C08
 open Aeic.Store
@@ -69,5 +70,20 @@ example : run World.init
      .openAppend 1, .add ⟨2, 8, some 20, 0, true⟩, .getFlight 30, .getFlight 20, .openRead 1, .getFlight 20] =
     [.ok, .idx 0, .idx 1, .item ⟨1, 8, some 10, 0, true⟩, .none, .ok, .idx 2, .item ⟨0, 8, some 30, 0, true⟩,
      .item ⟨2, 8, some 20, 0, true⟩, .ok, .item ⟨2, 8, some 20, 0, true⟩] := by decide
+
+
+/-! ### merged stores -/
+open Aeic.Merge
+
+/-- in a merged store (per-store index tables shifted by the number of trajectories in the preceding stores, one sort,
+    binary search, then the cumulative-count read) looking up an identifier returns the trajectory of the concatenation
+    that carries it, and nothing for an identifier that was never added — for any number and sizes of input stores -/
+theorem merged_lookup_is_dictionary (files : List (List Item)) (id : Int)
+    (hall : ∀ it ∈ files.flatten, it.fid.isSome = true) :
+    mergedGetFlight files id = files.flatten.find? (fun it => it.fid = some id) :=
+  mergedGetFlight_find files id hall
+
+example : mergedGetFlight [[⟨0, 1, some 30, 0, true⟩, ⟨1, 1, some 10, 0, true⟩], [], [⟨2, 1, some 20, 0, true⟩]] 20
+    = some ⟨2, 1, some 20, 0, true⟩ := by decide
 
 end C08
